@@ -38,6 +38,7 @@ std::atomic<uint64_t> g_mgr_node_addr[kMgrTab];
 std::atomic<int> g_mgr_node_owner[kMgrTab];
 std::atomic<int64_t> g_mgr_nodes[2];
 std::atomic<uint64_t> g_aligned_total{0};
+std::atomic<uint64_t> g_aligned_frees{0};  // list nodes handed to operator delete so far (counted before the memory is released)
 std::atomic<int64_t> g_bytes_live{0};     // live bytes of ordinary allocations made while tracking
 thread_local int tl_track_bytes = 0;
 std::atomic<bool> g_track_all{false};
@@ -99,6 +100,7 @@ void
 operator delete(void *p, std::align_val_t) noexcept
 {
   if (p == nullptr) return;
+  vf::g_aligned_frees.fetch_add(1, std::memory_order_seq_cst);
   vf::g_aligned_live.fetch_sub(1, vf::kRlx);
   vf::MgrNodeFreed(p);
   free(p);
@@ -107,6 +109,7 @@ void
 operator delete(void *p, std::size_t, std::align_val_t) noexcept
 {
   if (p == nullptr) return;
+  vf::g_aligned_frees.fetch_add(1, std::memory_order_seq_cst);
   vf::g_aligned_live.fetch_sub(1, vf::kRlx);
   vf::MgrNodeFreed(p);
   free(p);
@@ -1048,6 +1051,7 @@ thread_local bool tl_stale_publication = false;  // the epoch published by the l
 thread_local uint64_t tl_step_upper = 0;  // upper bits of the oldest list node the current lookup may stand on without protecting it (0: no lookup)
 thread_local uint64_t tl_entered_epoch = 0;  // value published by this thread's last EnterEpoch
 thread_local uint64_t tl_lookup_begin_epoch = 0;  // global epoch right before the library loads the list head
+thread_local uint64_t tl_lookup_begin_frees = 0;  // list nodes retired so far, sampled at the same moment
 thread_local bool tl_long_lookup = false;
 thread_local bool tl_in_gpe = false;
 thread_local int tl_worker = -1;
@@ -1082,7 +1086,9 @@ ClassifyLookup()
   if (em == nullptr || tl_step_upper == 0 || tl_long_lookup) return;
   constexpr uint64_t kCap = EpochManager::kCapacity;
   const auto first_m = std::max<uint64_t>(tl_step_upper + kCap, (tl_lookup_begin_epoch + kCap - 1) / kCap * kCap);
-  if (em->GetCurrentEpoch() >= first_m) {
+  // ... or any list node at all was retired while the lookup was under way: nodes older than that linger as long as
+  // some other thread pins one of their epochs and are retired whenever that pin goes away
+  if (em->GetCurrentEpoch() >= first_m || g_aligned_frees.load(std::memory_order_seq_cst) != tl_lookup_begin_frees) {
     tl_long_lookup = true;
     g_long_lookup_stalls.fetch_add(1, kRlx);
   }
@@ -1095,6 +1101,7 @@ PointPostCb(int id, const void *)
   const auto *em = CurEm();
   if (em == nullptr) return;
   tl_lookup_begin_epoch = em->GetCurrentEpoch();
+  tl_lookup_begin_frees = g_aligned_frees.load(std::memory_order_seq_cst);
   // a lookup for the epoch published last begins: upper bits of the oldest node it may stand on unprotected
   tl_step_upper = (tl_entered_epoch & ~static_cast<uint64_t>(EpochManager::kCapacity - 1)) + EpochManager::kCapacity;
 }
@@ -1169,9 +1176,11 @@ CrashReport(const char *what, int sig)
                          ",\"lookups_stalled_across_node_retirement\":%" PRIu64 ",\"evaluations\":%" PRIu64
                          "},\"strings\":{},\"chaos\":{},\"samples\":[],\"signatures\":[\"epoch:N=%zu:sub=%s\"],"
                          "\"violations\":[{\"prop\":\"C17\",\"key\":\"epoch:GetProtectedEpochs:%s\",\"detail\":\"%s (signal %d) in worker %d %s "
-                         "GetProtectedEpochs; capacity %zu sub-workload %s; history class: %s\",\"count\":1}],\"observations\":{}}\n",
+                         "GetProtectedEpochs; capacity %zu sub-workload %s; history class: %s (published epoch %" PRIu64 ", global epoch before the lookup %" PRIu64
+                         ", now %" PRIu64 ", oldest unprotected node base %" PRIu64 ")\",\"count\":1}],\"observations\":{}}\n",
                          g_lists_checked.load(), g_stale_publications.load(), g_long_lookup_stalls.load(), g_lists_checked.load() + 1, kN,
-                         g_cfg.sub.c_str(), hc, what, sig, tl_worker, tl_in_gpe ? "inside" : "outside", kN, g_cfg.sub.c_str(), hc);
+                         g_cfg.sub.c_str(), hc, what, sig, tl_worker, tl_in_gpe ? "inside" : "outside", kN, g_cfg.sub.c_str(), hc, tl_entered_epoch,
+                         tl_lookup_begin_epoch, CurEm() != nullptr ? static_cast<uint64_t>(CurEm()->GetCurrentEpoch()) : 0, tl_step_upper);
   if (n > 0) {
     const auto w = write(1, buf, static_cast<size_t>(n));
     (void)w;
